@@ -14,7 +14,7 @@ head = subprocess.check_output(["git", "-C", "/repo", "rev-parse", "--short", "H
 for n in names:
     d = "/verif/benign/" + n
     meta = json.load(open(d + "/meta.json"))
-    want = props or ",".join(sorted(set((meta.get("latest_run") or meta["first_run"])["alarms"] + [meta["written_for"]])))
+    want = props or ",".join(sorted(set(((meta.get("latest_run") or meta.get("first_run") or {}).get("alarms") or []) + [meta["written_for"]])))
     cmd = ["/venv/bin/python", "/verif/harness/try_benign.py", d + "/patch.diff", "--props", want, "-j", "10"]
     out = subprocess.run(cmd, text=True, stdout=subprocess.PIPE, stderr=subprocess.STDOUT).stdout
     try:
@@ -29,5 +29,7 @@ for n in names:
                                what=((c["first_replay"] or {}).get("what") or "")[:300] if isinstance(c["first_replay"], dict) else None)
                        for p, c in r.get("checks", {}).items() if c["rc"] != 0})
     meta["latest_run"] = run
+    if not meta.get("first_run"):
+        meta["first_run"] = run
     json.dump(meta, open(d + "/meta.json", "w"), indent=1)
     print(n, "quiet" if not run["alarms"] else {p: "%s:%s" % (c["exit"], c["kind"]) for p, c in run["checks"].items()}, flush=True)
